@@ -597,6 +597,12 @@ func cmdCheck(args []string) int {
 				if nViol > 0 || total.Violated > 0 {
 					continue // the harness did not get that far because the property is violated
 				}
+				if len(total.Unsupported) > 0 || len(total.OutOfBound) > 0 || incomplete > 0 {
+					// paths were cut before they got there (code the engine cannot run, or a limit):
+					// not a vacuous harness, and already reported as UNDISCHARGED
+					fmt.Printf("UNDISCHARGED property=%s count=1 reason=cover point %q of %s not reached because paths were cut short (see the other UNDISCHARGED lines)\n", prop, c, h.Name)
+					continue
+				}
 				fmt.Printf("BROKEN property=%s: mandatory cover point %q of %s never reached (vacuous harness)\n", prop, c, h.Name)
 				return 2
 			}
